@@ -1198,3 +1198,391 @@ where
         Pin::into_inner(self).sink.poll_ready_unpin(cx)
     }
 }
+
+/// Verification hooks (add-only, compiled only with `--cfg remoc_verif`).
+#[cfg(remoc_verif)]
+#[allow(missing_docs, private_interfaces, dead_code, clippy::all)]
+pub mod verif_hooks {
+    use super::*;
+    use crate::chmux::credit::verif_hooks as credit_hooks;
+
+    // ---- port events -------------------------------------------------------
+
+    pub enum PortEvtView {
+        Accepted { local_port: PortNumber, remote_port: u32, port_tx: oneshot::Sender<(Sender, Receiver)> },
+        Rejected { remote_port: u32, no_ports: bool },
+        SendData { remote_port: u32, data: Bytes, first: bool, last: bool },
+        SendPorts {
+            remote_port: u32,
+            first: bool,
+            last: bool,
+            wait: bool,
+            ports: Vec<(PortReq, oneshot::Sender<ConnectResponse>)>,
+        },
+        ReturnCredits { remote_port: u32, credits: u32 },
+        SenderDropped { local_port: u32 },
+        ReceiverClosed { local_port: u32 },
+        ReceiverDropped { local_port: u32 },
+    }
+
+    pub fn port_evt_view(evt: PortEvt) -> PortEvtView {
+        match evt {
+            PortEvt::Accepted { local_port, remote_port, port_tx } => {
+                PortEvtView::Accepted { local_port, remote_port, port_tx }
+            }
+            PortEvt::Rejected { remote_port, no_ports } => PortEvtView::Rejected { remote_port, no_ports },
+            PortEvt::SendData { remote_port, data, first, last } => {
+                PortEvtView::SendData { remote_port, data, first, last }
+            }
+            PortEvt::SendPorts { remote_port, first, last, wait, ports } => {
+                PortEvtView::SendPorts { remote_port, first, last, wait, ports }
+            }
+            PortEvt::ReturnCredits { remote_port, credits } => PortEvtView::ReturnCredits { remote_port, credits },
+            PortEvt::SenderDropped { local_port } => PortEvtView::SenderDropped { local_port },
+            PortEvt::ReceiverClosed { local_port } => PortEvtView::ReceiverClosed { local_port },
+            PortEvt::ReceiverDropped { local_port } => PortEvtView::ReceiverDropped { local_port },
+        }
+    }
+
+    pub fn port_evt(view: PortEvtView) -> PortEvt {
+        match view {
+            PortEvtView::Accepted { local_port, remote_port, port_tx } => {
+                PortEvt::Accepted { local_port, remote_port, port_tx }
+            }
+            PortEvtView::Rejected { remote_port, no_ports } => PortEvt::Rejected { remote_port, no_ports },
+            PortEvtView::SendData { remote_port, data, first, last } => {
+                PortEvt::SendData { remote_port, data, first, last }
+            }
+            PortEvtView::SendPorts { remote_port, first, last, wait, ports } => {
+                PortEvt::SendPorts { remote_port, first, last, wait, ports }
+            }
+            PortEvtView::ReturnCredits { remote_port, credits } => PortEvt::ReturnCredits { remote_port, credits },
+            PortEvtView::SenderDropped { local_port } => PortEvt::SenderDropped { local_port },
+            PortEvtView::ReceiverClosed { local_port } => PortEvt::ReceiverClosed { local_port },
+            PortEvtView::ReceiverDropped { local_port } => PortEvt::ReceiverDropped { local_port },
+        }
+    }
+
+    // ---- global events (private type, wrapped) ---------------------------
+
+    pub struct VGlobalEvt(GlobalEvt);
+
+    pub fn g_connect_req(
+        local_port: PortNumber, id: u32, sent_tx: mpsc::Sender<()>, response_tx: oneshot::Sender<ConnectResponse>,
+        wait: bool,
+    ) -> VGlobalEvt {
+        VGlobalEvt(GlobalEvt::ConnectReq(ConnectRequest { local_port, id, sent_tx, response_tx, wait }))
+    }
+
+    pub fn g_connect_request(req: ConnectRequest) -> VGlobalEvt {
+        VGlobalEvt(GlobalEvt::ConnectReq(req))
+    }
+
+    pub fn g_all_clients_dropped() -> VGlobalEvt {
+        VGlobalEvt(GlobalEvt::AllClientsDropped)
+    }
+
+    pub fn g_listener_dropped() -> VGlobalEvt {
+        VGlobalEvt(GlobalEvt::ListenerDropped)
+    }
+
+    pub fn g_port(evt: PortEvt) -> VGlobalEvt {
+        VGlobalEvt(GlobalEvt::Port(evt))
+    }
+
+    pub fn g_send_goodbye() -> VGlobalEvt {
+        VGlobalEvt(GlobalEvt::SendGoodbye)
+    }
+
+    // ---- transport send queue (private message type, wrapped) ------------
+
+    /// The queue between the dispatcher and its transport send task.
+    pub struct VSendQueue {
+        tx: mpsc::Sender<TransportMsg>,
+        rx: mpsc::Receiver<TransportMsg>,
+    }
+
+    impl VSendQueue {
+        pub fn new(len: usize) -> Self {
+            let (tx, rx) = mpsc::channel(len);
+            Self { tx, rx }
+        }
+
+        /// Next message queued for the transport.
+        pub fn try_recv(&mut self) -> Option<(MultiplexMsg, Option<Bytes>)> {
+            self.rx.try_recv().ok().map(|m| (m.msg, m.data))
+        }
+
+        pub fn len(&self) -> usize {
+            self.rx.len()
+        }
+    }
+
+    // ---- multiplexer state -------------------------------------------------
+
+    pub struct MuxEnv {
+        pub listen_wait_rx: mpsc::Receiver<RemoteConnectMsg>,
+        pub listen_no_wait_rx: mpsc::Receiver<RemoteConnectMsg>,
+        pub connect_tx: mpsc::UnboundedSender<ConnectRequest>,
+        pub terminate_tx: mpsc::UnboundedSender<()>,
+        pub send: VSendQueue,
+    }
+
+    /// Builds a multiplexer as `ChMux::new` does after the hello exchange, without a transport.
+    pub fn mux_new<Si, St>(
+        cfg: Cfg, remote_cfg: ExchangedCfg, remote_protocol_version: u8, transport_send_queue: usize,
+    ) -> (ChMux<Si, St>, MuxEnv) {
+        let (channel_tx, channel_rx) = mpsc::channel(cfg.shared_send_queue);
+        let (listen_wait_tx, listen_wait_rx) = mpsc::channel(usize::from(cfg.connect_queue) + 1);
+        let (listen_no_wait_tx, listen_no_wait_rx) = mpsc::channel(usize::from(cfg.connect_queue) + 1);
+        let (connect_tx, connect_rx) = mpsc::unbounded_channel();
+        let (terminate_tx, terminate_rx) = mpsc::unbounded_channel();
+
+        let port_allocator = PortAllocator::new(cfg.max_ports);
+        let remote_listener_dropped = Arc::new(AtomicBool::new(false));
+        let multiplexer = ChMux {
+            remote_protocol_version,
+            local_cfg: cfg,
+            remote_cfg,
+            connect_rx: Some(connect_rx),
+            listen_tx: Some((listen_wait_tx, listen_no_wait_tx)),
+            port_allocator,
+            ports: HashMap::new(),
+            outstanding_remote_port_requests: HashSet::new(),
+            channel_tx,
+            channel_rx: Some(channel_rx),
+            terminate_rx: Some(terminate_rx),
+            remote_client_dropped: false,
+            remote_listener_dropped,
+            all_clients_dropped: false,
+            goodbye_sent: false,
+            goodbye_received: false,
+            transport_sink: None,
+            transport_stream: None,
+            storage: AnyStorage::new(),
+        };
+        let env = MuxEnv {
+            listen_wait_rx,
+            listen_no_wait_rx,
+            connect_tx,
+            terminate_tx,
+            send: VSendQueue::new(transport_send_queue),
+        };
+        (multiplexer, env)
+    }
+
+    pub fn mux_allocator<Si, St>(mux: &ChMux<Si, St>) -> PortAllocator {
+        mux.port_allocator.clone()
+    }
+
+    pub fn mux_channel_tx<Si, St>(mux: &ChMux<Si, St>) -> mpsc::Sender<PortEvt> {
+        mux.channel_tx.clone()
+    }
+
+    pub fn mux_channel_rx<Si, St>(mux: &mut ChMux<Si, St>) -> &mut mpsc::Receiver<PortEvt> {
+        mux.channel_rx.as_mut().unwrap()
+    }
+
+    pub fn mux_remote_listener_dropped<Si, St>(mux: &ChMux<Si, St>) -> Arc<AtomicBool> {
+        mux.remote_listener_dropped.clone()
+    }
+
+    pub struct MuxFlags {
+        pub all_clients_dropped: bool,
+        pub remote_client_dropped: bool,
+        pub remote_listener_dropped: bool,
+        pub goodbye_sent: bool,
+        pub goodbye_received: bool,
+        pub listener_present: bool,
+        pub ports: usize,
+        pub outstanding: usize,
+    }
+
+    pub fn mux_flags<Si, St>(mux: &ChMux<Si, St>) -> MuxFlags {
+        MuxFlags {
+            all_clients_dropped: mux.all_clients_dropped,
+            remote_client_dropped: mux.remote_client_dropped,
+            remote_listener_dropped: mux.remote_listener_dropped.load(Ordering::Relaxed),
+            goodbye_sent: mux.goodbye_sent,
+            goodbye_received: mux.goodbye_received,
+            listener_present: mux.listen_tx.is_some(),
+            ports: mux.ports.len(),
+            outstanding: mux.outstanding_remote_port_requests.len(),
+        }
+    }
+
+    pub fn mux_set_flags<Si, St>(
+        mux: &mut ChMux<Si, St>, all_clients_dropped: bool, remote_client_dropped: bool,
+        remote_listener_dropped: bool, goodbye_sent: bool, goodbye_received: bool, listener_present: bool,
+    ) {
+        mux.all_clients_dropped = all_clients_dropped;
+        mux.remote_client_dropped = remote_client_dropped;
+        mux.remote_listener_dropped.store(remote_listener_dropped, Ordering::Relaxed);
+        mux.goodbye_sent = goodbye_sent;
+        mux.goodbye_received = goodbye_received;
+        if !listener_present {
+            mux.listen_tx = None;
+        }
+    }
+
+    pub fn mux_add_outstanding<Si, St>(mux: &mut ChMux<Si, St>, remote_port: u32) -> bool {
+        mux.outstanding_remote_port_requests.insert(remote_port)
+    }
+
+    pub fn mux_is_outstanding<Si, St>(mux: &ChMux<Si, St>, remote_port: u32) -> bool {
+        mux.outstanding_remote_port_requests.contains(&remote_port)
+    }
+
+    /// Enters `port` as `Connecting`; returns the receiving end of its responder.
+    pub fn mux_add_connecting<Si, St>(
+        mux: &mut ChMux<Si, St>, port: PortNumber,
+    ) -> oneshot::Receiver<ConnectResponse> {
+        let (response_tx, response_rx) = oneshot::channel();
+        assert!(mux.ports.insert(port, PortState::Connecting { response_tx }).is_none());
+        response_rx
+    }
+
+    pub struct PortFlags {
+        pub remote_sender_finished: bool,
+        pub receiver_closed: bool,
+        pub receiver_dropped: bool,
+        pub sender_dropped: bool,
+        pub remote_receiver_closed: bool,
+        pub remote_receiver_dropped: bool,
+    }
+
+    /// Overwrites the flags of a connected port (the harness is responsible for consistency).
+    pub fn mux_port_set_flags<Si, St>(mux: &mut ChMux<Si, St>, local_port: u32, flags: PortFlags) {
+        match mux.ports.get_mut(&local_port) {
+            Some(PortState::Connected {
+                receiver_tx_data,
+                receiver_closed,
+                receiver_dropped,
+                sender_dropped,
+                remote_receiver_closed,
+                remote_receiver_closed_notify,
+                remote_receiver_dropped,
+                ..
+            }) => {
+                if flags.remote_sender_finished {
+                    *receiver_tx_data = None;
+                }
+                *receiver_closed = flags.receiver_closed;
+                *receiver_dropped = flags.receiver_dropped;
+                *sender_dropped = flags.sender_dropped;
+                if flags.remote_receiver_closed {
+                    remote_receiver_closed.store(true, Ordering::Relaxed);
+                    let _ = remote_receiver_closed_notify.lock().unwrap().take();
+                }
+                *remote_receiver_dropped = flags.remote_receiver_dropped;
+            }
+            _ => panic!("verif hook: port not connected"),
+        }
+    }
+
+    pub fn mux_port_set_credits<Si, St>(
+        mux: &mut ChMux<Si, St>, local_port: u32, sender_credits: u32, sender_closed: Option<bool>, used: u32,
+    ) {
+        match mux.ports.get_mut(&local_port) {
+            Some(PortState::Connected { sender_credit_provider, receiver_credit_monitor, .. }) => {
+                credit_hooks::provider_set(sender_credit_provider, sender_credits, sender_closed);
+                credit_hooks::monitor_set_used(receiver_credit_monitor, used);
+            }
+            _ => panic!("verif hook: port not connected"),
+        }
+    }
+
+    pub fn mux_port_add_credit_waiter<Si, St>(mux: &mut ChMux<Si, St>, local_port: u32) -> oneshot::Receiver<()> {
+        match mux.ports.get_mut(&local_port) {
+            Some(PortState::Connected { sender_credit_provider, .. }) => {
+                credit_hooks::provider_add_waiter(sender_credit_provider)
+            }
+            _ => panic!("verif hook: port not connected"),
+        }
+    }
+
+    pub enum PortView {
+        Absent,
+        Connecting,
+        Connected {
+            remote_port: u32,
+            remote_sender_finished: bool,
+            receiver_closed: bool,
+            receiver_dropped: bool,
+            sender_dropped: bool,
+            remote_receiver_closed: bool,
+            /// `None` once the hang-up notifiers have been fired, else the number registered.
+            hangup_notifiers: Option<usize>,
+            remote_receiver_dropped: bool,
+            /// (credits, closed, waiters) of the sender-side credit pool.
+            sender_credits: (u32, Option<bool>, usize),
+            /// (used, limit) of the receive-side credit monitor.
+            monitor: (u32, u32),
+        },
+    }
+
+    pub fn mux_port_view<Si, St>(mux: &ChMux<Si, St>, local_port: u32) -> PortView {
+        match mux.ports.get(&local_port) {
+            None => PortView::Absent,
+            Some(PortState::Connecting { .. }) => PortView::Connecting,
+            Some(PortState::Connected {
+                remote_port,
+                sender_credit_provider,
+                receiver_tx_data,
+                receiver_credit_monitor,
+                receiver_closed,
+                receiver_dropped,
+                sender_dropped,
+                remote_receiver_closed,
+                remote_receiver_closed_notify,
+                remote_receiver_dropped,
+            }) => PortView::Connected {
+                remote_port: *remote_port,
+                remote_sender_finished: receiver_tx_data.is_none(),
+                receiver_closed: *receiver_closed,
+                receiver_dropped: *receiver_dropped,
+                sender_dropped: *sender_dropped,
+                remote_receiver_closed: remote_receiver_closed.load(Ordering::Relaxed),
+                hangup_notifiers: remote_receiver_closed_notify.lock().unwrap().as_ref().map(|v| v.len()),
+                remote_receiver_dropped: *remote_receiver_dropped,
+                sender_credits: credit_hooks::provider_state(sender_credit_provider),
+                monitor: credit_hooks::monitor_state(receiver_credit_monitor),
+            },
+        }
+    }
+
+    impl<TransportSink, TransportSinkError, TransportStream, TransportStreamError>
+        ChMux<TransportSink, TransportStream>
+    where
+        TransportSink: Sink<Bytes, Error = TransportSinkError> + Send + Unpin,
+        TransportSinkError: Error + Send + Sync + 'static,
+        TransportStream: Stream<Item = Result<Bytes, TransportStreamError>> + Send + Unpin,
+        TransportStreamError: Error + Send + Sync + 'static,
+    {
+        pub fn verif_create_port(&mut self, local_port: PortNumber, remote_port: u32) -> (Sender, Receiver) {
+            self.create_port(local_port, remote_port)
+        }
+
+        pub fn verif_maybe_free_port(&mut self, local_port: u32) {
+            self.maybe_free_port(local_port)
+        }
+
+        pub fn verif_should_terminate(&self) -> bool {
+            self.should_terminate()
+        }
+
+        /// Reserves a slot in the send queue (as `run` does) and handles the event.
+        pub fn verif_handle_event<'a>(
+            &'a mut self, queue: &'a VSendQueue, event: VGlobalEvt,
+        ) -> impl Future<Output = Result<(), ChMuxError<TransportSinkError, TransportStreamError>>> + 'a {
+            let permit = queue.tx.try_reserve().expect("verif hook: transport send queue must have room");
+            self.handle_event(permit, event.0)
+        }
+
+        pub fn verif_handle_received_msg<'a>(
+            &'a mut self, msg: MultiplexMsg, data: Option<Bytes>,
+        ) -> impl Future<Output = Result<(), ChMuxError<TransportSinkError, TransportStreamError>>> + 'a {
+            self.handle_received_msg(TransportMsg { msg, data })
+        }
+    }
+}
